@@ -123,7 +123,11 @@ func execCase(bin string, c *cf.Case, verbose bool) *outcome {
 	data, _ := json.Marshal(c)
 	o := &outcome{c: c}
 	for attempt := 0; attempt < 2; attempt++ {
-		ctx, cancel := context.WithTimeout(context.Background(), 60*time.Second)
+		limit := 60 * time.Second
+		if attempt > 0 {
+			limit = 180 * time.Second // the machine may just have been busy
+		}
+		ctx, cancel := context.WithTimeout(context.Background(), limit)
 		cmd := exec.CommandContext(ctx, bin)
 		cmd.Stdin = bytes.NewReader(data)
 		var stdout, stderr bytes.Buffer
@@ -150,7 +154,7 @@ func execCase(bin string, c *cf.Case, verbose bool) *outcome {
 			return o
 		}
 		if timedOut {
-			o.infra = "worker exceeded 60 s wall clock"
+			o.infra = "worker exceeded its wall clock limit (60 s, then 180 s)"
 			continue // retry once
 		}
 		se := stderr.String()
